@@ -115,20 +115,28 @@ func c07ExecNode(x *XSpec, hist []Op, wantDump bool) HistOutcome {
 func c07Specs(tier string) []*XSpec {
 	keys := []string{"a", "b"}
 	layout := perKey(keys, Op{K: "set", V: "s"}, Op{K: "del"}, Op{K: "set", V: "x300"})
-	small := perKey(keys, Op{K: "set", V: "s"}, Op{K: "del"})
+	keys3 := []string{"a", "b", "c"}
+	small := append(perKey(keys3, Op{K: "set", V: "s"}), Op{K: "del", Key: "a"})
+	keys4 := []string{"a", "b", "c", "d"}
 	rs := []Op{{K: "restart", A: []int{0}}, {K: "restart", A: []int{1}}}
 	mk := func(c *store.VerifCfg, L int) *XSpec {
 		al := append(append([]Op{}, layout...), rs...)
+		ks := keys
+		pr := gcPrune(L, 0, c.BodyMax < 300)
 		if c.BodyMax < 300 {
-			al = append(append([]Op{}, small...), rs...)
+			al, ks = append(append([]Op{}, small...), rs...), keys3
+			if c.DataFileMax > 512 {
+				al, ks = append(perKey(keys4, Op{K: "set", V: "s"}), rs...), keys4
+			}
+			base := pr
+			pr = func(hist []Op, op Op) bool { return base(hist, op) || symmetricKeys(ks, hist, op) }
 		}
-		return &XSpec{Property: "C07", Name: fmt.Sprintf("%s-L%d", c.Name, L), Cfg: c, Alphabet: al, Depth: L + 2, Keys: keys, ExecNode: c07ExecNode,
-			Prune: gcPrune(L, 0, c.BodyMax < 300)}
+		return &XSpec{Property: "C07", Name: fmt.Sprintf("%s-L%d", c.Name, L), Cfg: c, Alphabet: al, Depth: L + 2, Keys: ks, ExecNode: c07ExecNode, Prune: pr}
 	}
 	if tier == "quick" {
 		return []*XSpec{mk(cfgGC1(), 3), mk(cfgGC2(), 4)}
 	}
-	return []*XSpec{mk(cfgGC1(), 4), mk(cfgGC2(), 5)}
+	return []*XSpec{mk(cfgGC1(), 4), mk(cfgGC2(), 6), mk(cfgGC3(), 9)}
 }
 
 func C07(job *Job, r *Report) {
